@@ -405,3 +405,19 @@ def apalache_lemma(ctx, module="SeqWindowLemma", inv="Lemma", timeout=600):
     if "EXITCODE: OK" not in p.stdout or "NoError" not in p.stdout:
         raise Broken("Apalache did not prove %s!%s:\n%s" % (module, inv, p.stdout[-2000:]))
     return True
+
+
+def apalache_check(ctx, family, module, args, timeout=900):
+    """Run one apalache-mc check obligation on spec/<family>/<module>.tla; Broken unless it reports NoError."""
+    d = ctx.path("apalache-%s" % module, "x")[:-2]
+    shutil.copy(os.path.join(SPEC, family, module + ".tla"), d)
+    cmd = ["apalache-mc", "check"] + list(args) + ["--out-dir=" + os.path.join(d, "out"), module + ".tla"]
+    try:
+        p = subprocess.run(cmd, cwd=d, stdout=subprocess.PIPE, stderr=subprocess.STDOUT, text=True, timeout=timeout,
+                           env=dict(os.environ, JAVA_TOOL_OPTIONS="-Djava.io.tmpdir=" + d))
+    except subprocess.TimeoutExpired:
+        raise Broken("Apalache timed out on %s %s" % (module, args))
+    if "EXITCODE: OK" not in p.stdout or "NoError" not in p.stdout:
+        raise Broken("Apalache did not discharge %s %s:\n%s" % (module, args, p.stdout[-1500:]))
+    shutil.rmtree(os.path.join(d, "out"), True)
+    return True
